@@ -25,6 +25,11 @@ def cfg_variant(ctx, cfg, name, repl):
     d = ctx.spec_scratch("vmref")
     s = open(os.path.join(d, cfg)).read()
     for a, b in repl:
+        if a.startswith("MapRemoveDropsFirst"):      # set the code-shape switch whatever its current value
+            s, n = re.subn(r"MapRemoveDropsFirst = (TRUE|FALSE)", b, s)
+            if n != 1:
+                raise vlib.Inconclusive("cfg %s has no MapRemoveDropsFirst line" % cfg)
+            continue
         if a not in s:
             raise vlib.Inconclusive("cfg %s has no line %r" % (cfg, a))
         s = s.replace(a, b)
@@ -227,7 +232,9 @@ def run(ctx):
             behaviours.append({"kind": "cex", "hist": hist, "cfg": cfg})
             vlib.log("model counterexample in %s (%d actions, last: %s) -> replay on the real VM" % (
                 cfg, len(hist) - 1, hist[-1]["op"]))
-            alt = cfg_variant(ctx, cfg, cfg.replace(".cfg", "_alt.cfg"), [("MapRemoveDropsFirst = FALSE", "MapRemoveDropsFirst = TRUE")])
+            cur = re.search(r"MapRemoveDropsFirst = (TRUE|FALSE)", open(os.path.join(ctx.spec_scratch("vmref"), cfg)).read()).group(1)
+            other = "FALSE" if cur == "TRUE" else "TRUE"
+            alt = cfg_variant(ctx, cfg, cfg.replace(".cfg", "_alt.cfg"), [("MapRemoveDropsFirst", "MapRemoveDropsFirst = " + other)])
             ctx.tlc_mc("vmref", "VMRef.tla", alt, timeout=900 if q else 3000)
             if cfg in cover_cfgs:
                 covers.append(mc_cover(cfg, judged=False))
@@ -236,7 +243,7 @@ def run(ctx):
     # model-level non-vacuity: the named deviations must be caught by the same invariants
     for bug in ("BugAppend", "BugRemGuard"):
         name = cfg_variant(ctx, "MC_Q1.cfg", "MC_Q1_%s.cfg" % bug,
-                           [("%s = FALSE" % bug, "%s = TRUE" % bug), ("MapRemoveDropsFirst = FALSE", "MapRemoveDropsFirst = TRUE")])
+                           [("%s = FALSE" % bug, "%s = TRUE" % bug), ("MapRemoveDropsFirst", "MapRemoveDropsFirst = TRUE")])
         try:
             ctx.tlc_mc("vmref", "VMRef.tla", name, timeout=600)
             raise vlib.Inconclusive("deviation %s not detected by the model invariants (vacuous model)" % bug)
@@ -312,6 +319,10 @@ def run(ctx):
     selftest(ctx, os.path.join(res["_out"], files[0]), bad_runs)
 
 
+COLLECTION_OPS = {"REMOVE", "SETITEM", "APPEND", "PICKITEM", "HASKEY", "POPITEM", "CLEARITEMS", "REVERSEIT", "VALUES", "KEYS",
+                  "UNPACK", "SIZE"}
+
+
 def opname(n):
     return "0x%02X" % n
 
@@ -351,7 +362,8 @@ def report(ctx, events, fails):
                 # types of the (up to 3) top stack items the instruction was executed on, top first
                 tt = prev.get("tt", "").split(",")
                 cpos = {"REMOVE": 1, "SETITEM": 2, "APPEND": 1, "PICKITEM": 1, "HASKEY": 1}.get(sig["op"], 0)
-                sig["collection"] = tt[cpos] if cpos < len(tt) else ""      # type of the operand the instruction works on
+                if sig["op"] in COLLECTION_OPS:     # type of the collection operand the instruction works on
+                    sig["collection"] = tt[cpos] if cpos < len(tt) else ""
                 if sig["op"] in ("SETITEM", "APPEND"):
                     sig["item"] = tt[0]
                 sig["surplus"] = max(-3, min(3, ev.get("r", 0) - ev.get("w", 0)))
